@@ -1,6 +1,6 @@
 import openpyxl
 
-from . import patch, xltypes
+from . import patch, utils, xltypes
 
 
 class Reader():
@@ -17,6 +17,8 @@ class Reader():
             defn.name: defn.value
             for name, defn in self.book.defined_names.items()
             if defn.hidden is None and defn.value != '#REF!'
+            and utils.resolve_sheet(
+                defn.value.rpartition('!')[0]) not in ignore_sheets
         }
 
     def read_cells(self, ignore_sheets=[], ignore_hidden=False):
